@@ -584,3 +584,67 @@ pub fn render_file(items: &[Item], inner_attrs: &[String], uses: &[String], o: &
     }
     out
 }
+
+/// Source layouts rustfmt would not produce but rustc accepts: the attribute is not the first token of its line.
+/// mode 0: unchanged; 1: every `#[typeshare..]` line gets another attribute in front of it on the same line;
+/// 2: attribute lines are joined with the line that follows (derive / serde / typeshare / item on one line);
+/// 3: a block comment precedes every `#[typeshare..]`; 4: CRLF line endings and tab indentation.
+pub fn relayout(src: &str, mode: usize) -> String {
+    let is_ts = |l: &str| l.trim_start().starts_with("#[typeshare");
+    match mode {
+        1 | 3 => src
+            .lines()
+            .map(|l| {
+                if is_ts(l) {
+                    let ind = &l[..l.len() - l.trim_start().len()];
+                    format!("{ind}{}{}", if mode == 1 { "#[allow(dead_code)] " } else { "/* shared */ " }, l.trim_start())
+                } else {
+                    l.to_string()
+                }
+            })
+            .collect::<Vec<_>>()
+            .join("\n")
+            + "\n",
+        2 => {
+            let mut out = String::new();
+            let mut pending: Vec<String> = vec![];
+            for l in src.lines() {
+                let t = l.trim();
+                let is_attr = t.starts_with("#[") && t.ends_with(']');
+                if is_attr {
+                    pending.push(if pending.is_empty() { l.trim_end().to_string() } else { t.to_string() });
+                } else if t.starts_with("//") || t.starts_with("/*") {
+                    // a comment between attributes ends the joined line
+                    if !pending.is_empty() {
+                        out.push_str(&fix_first(&pending.join(" ")));
+                        out.push('\n');
+                        pending.clear();
+                    }
+                    out.push_str(l);
+                    out.push('\n');
+                } else if !pending.is_empty() {
+                    pending.push(t.to_string());
+                    out.push_str(&fix_first(&pending.join(" ")));
+                    out.push('\n');
+                    pending.clear();
+                } else {
+                    out.push_str(l);
+                    out.push('\n');
+                }
+            }
+            out
+        }
+        4 => src.replace("    ", "\t").replace('\n', "\r\n"),
+        _ => src.to_string(),
+    }
+}
+
+fn fix_first(line: &str) -> String {
+    // the joined line must not begin with the typeshare attribute either
+    if line.trim_start().starts_with("#[typeshare") {
+        let ind = &line[..line.len() - line.trim_start().len()];
+        format!("{ind}#[allow(dead_code)] {}", line.trim_start())
+    } else {
+        line.to_string()
+    }
+}
